@@ -172,6 +172,13 @@ class TypeRegistry(dict):
         Register one (or more) user-defined types used for matching types
         in step patterns of this matcher.
         """
+        # -- ENSURE: Type variants that were derived for cardinality-fields
+        #    ("Name?", "Name+", "Name*"; added by the cfparse parser) are
+        #    derived anew from a type-converter that is registered again.
+        for name, type_converter in kwargs.items():
+            if name in self and self[name] is not type_converter:
+                for cardinality in ("?", "+", "*"):
+                    self.pop(name + cardinality, None)
         self.update(**kwargs)
 
     def has_type(self, name):
